@@ -118,7 +118,8 @@ func Deconstruct(s Square, decoder PFBDecoder) ([][]byte, error) {
 
 		blobs := make([]*share.Blob, len(wpfb.ShareIndexes))
 		for j, shareIndex := range wpfb.ShareIndexes {
-			end := int(shareIndex) + share.SparseSharesNeeded(blobSizes[j])
+			containsSigner := int(shareIndex) < len(s) && s[shareIndex].Version() == share.ShareVersionOne
+			end := int(shareIndex) + share.SparseSharesNeededWithSigner(blobSizes[j], containsSigner)
 			parsedBlobs, err := share.ParseBlobs(s[shareIndex:end])
 			if err != nil {
 				return nil, err
